@@ -68,10 +68,35 @@ func buildScenarios(rows int, policies, seeds, modes []string, fits []int, full 
 	return out
 }
 
+// deepScenarios: the scenarios whose deviation ball is explored one deviation deeper (d <= 2).
+// Complete balls of that depth are only feasible for short runs (the number of executions grows
+// with the square of the number of draws): populations of at most 4 organisms, 4 epochs.
+func deepScenarios(seeds, modes []string, fits []int) (out []EpochScenario) {
+	k := 0
+	for r, row := range cfgRows {
+		if row.Pop > 4 {
+			continue
+		}
+		for _, p := range []string{"A", "R1"} {
+			seed := seeds[k%len(seeds)]
+			if _, hb := hbSpecs[seed]; hb || seed == "read" || seed == "multidisc" {
+				seed = "xor"
+			}
+			m := modes[k%len(modes)]
+			if strings.HasPrefix(m, "par") {
+				m = "whole"
+			}
+			out = append(out, EpochScenario{Seed: seed, Cfg: r, Fit: fits[k%len(fits)], Policy: p, Mode: m, Epochs: 4})
+			k++
+		}
+	}
+	return out
+}
+
 type epochUnit struct {
-	sc     EpochScenario
-	dev    int
-	k, n   int
+	sc   EpochScenario
+	dev  int
+	k, n int
 }
 
 func runEpochPlan(c *Ctx, pl epochPlan) {
